@@ -46,10 +46,16 @@ def new_interp(prog, poll_budget=1, runtime='ActorRuntime'):
     def m_from_boxed(I, st, f, args, fr):
         b = args[0]
         outs = []
+        ser = None
+        if isinstance(b, Agg) and b.ty == 'BoxedMessage':
+            ser = any(isinstance(x, Enum) and x.variant == 'Some' and x.fields and isinstance(x.fields[0], Opaque) and x.fields[0].tag == 'SerializedMessage' for x in b.fields)
         s2 = st.fork()
+        s3 = s2.fork()
+        st.emit('DECODE', ser, 'ok')
+        s2.emit('DECODE', ser, 'err')
+        s3.emit('DECODE', ser, 'panic')
         outs.append(Outcome(st, 'ret', models_std.ok(Opaque('typed-msg', info=b))))
         outs.append(Outcome(s2, 'ret', models_std.err(Agg('BoxedDowncastErr', ()))))
-        s3 = s2.fork()
         s3.emit('PANIC', 'from_boxed')
         s3.ghost['panic_payload'] = Opaque('decode-panic')
         outs.append(Outcome(s3, 'unwind', s3.ghost['panic_payload']))
